@@ -19,7 +19,9 @@ open Robust Robust.Irc
 changed ranged expression or a changed body shape makes `C01_sites` fail) -/
 def expectedSites : List (String × String × String) := [
   ("internal/ircserver:IRCServer.ExpireSessions", "i.sessions", "collect+calls(time.Since)"),       -- not on the apply path: proposal order only
-  ("internal/ircserver:IRCServer.GetSessions", "i.sessions", "mapwrite"),                             -- status page copy
+  ("internal/ircserver:IRCServer.GetSessions", "i.sessions", "mapwrite+calls(make)"),                 -- status page copy (not on the apply path)
+  ("internal/ircserver:IRCServer.GetSessions", "session.Channels", "mapwrite"),                       -- copies into a fresh map
+  ("internal/ircserver:IRCServer.GetSessions", "session.invitedTo", "mapwrite"),
   ("internal/ircserver:IRCServer.Marshal", "channel.nicks", "collect+mapwrite+calls(rune)"),         -- written into a proto map
   ("internal/ircserver:IRCServer.Marshal", "i.channels", "collect+mapwrite+calls(b.re.String,make,rune,timeToTimestamp)"),
   ("internal/ircserver:IRCServer.Marshal", "i.sessions", "collect+calls(int64,make,timeToTimestamp)"),  -- repeated field; Unmarshal inserts into maps with distinct keys
